@@ -223,23 +223,34 @@ def main(tier, seed, collect=None):
     total.c["programs_in_scope"] = len(progs)
     chunks = list(core.chunked(progs, max(40, len(progs) // 64)))
 
+    src_of_all = {k: s for k, s, e in progs}
     # 2. convert on every host
     texts = {}  # key -> {normalised text: (text, [labels])}
     def conv(args):
         h, ch = args
         return h, call_worker(h, {"op": "convert", "repo": core.REPO, "seed": seed, "jobs": [[k, s, cfgs] for k, s, e in ch]})
+    status = {}  # (key, ci) -> {host: "ok" | error text}
     for h, res in pool.map(conv, [(h, ch) for h in hosts for ch in chunks]):
         for key, rs in res:
             for ci, st, text in rs:
                 total.c["conversions"] += 1
+                status.setdefault((key, ci), {})[h] = "ok" if st == "ok" else str(text)[:160]
                 if st != "ok":
-                    # conversion refusing a supported program is C01's business; here it only removes the text
+                    # a program refused on EVERY host is C01's/C08's business; here it only removes the text
                     total.c["conversions_raised"] += 1
                     continue
                 d = texts.setdefault(key, {})
                 ent = d.setdefault(core.norm_ol(text), (text, []))
                 ent[1].append("%s/%d" % (h, ci))
     total.c["distinct_output_texts"] = sum(len(d) for d in texts.values())
+    # a refusal that depends on the host: the program is evidently supported (another host converts it under the same
+    # options), so "run on any supported host" is violated by the host that raises
+    for (key, ci), by in sorted(status.items()):
+        good = [h for h, v in by.items() if v == "ok"]
+        bad = [h for h, v in by.items() if v != "ok"]
+        if good and bad:
+            total.fail(key, ci, "rejects", "conversion raises on host %s (%s) but succeeds on host %s" % (bad[0], by[bad[0]], good[0]),
+                       {"source": src_of_all[key], "hosts_raising": bad, "hosts_converting": good})
 
     # 3. evaluate every distinct text on every runtime
     src_of = {k: (s, e) for k, s, e in progs}
@@ -312,6 +323,17 @@ def main(tier, seed, collect=None):
 
 def replay(payload):
     ex = payload.get("extra") or {}
+    if ex.get("source") and ex.get("hosts_raising"):
+        # host-dependent refusal: convert again on the hosts that raised and on one that converted
+        ci = payload["cfg"]
+        bad = 0
+        for h in ex["hosts_raising"] + ex.get("hosts_converting", [])[:1]:
+            res = call_worker(h, {"op": "convert", "repo": core.REPO, "jobs": [[payload["key"], ex["source"], [[ci, list(core.CONFIGS[ci])]]]]})
+            st, text = res[0][1][0][1], res[0][1][0][2]
+            print(payload["key"], "host", h, st, "" if st == "ok" else text)
+            if st != "ok" and h in ex["hosts_raising"]:
+                bad += 1
+        return 1 if bad else 0
     if not ex.get("source") or not ex.get("runtime"):
         print("replay file lacks source/runtime")
         return 2
